@@ -572,6 +572,42 @@ def check(run):
 
     run.assume("element-by-element equality of reloaded data, precision, colour order and instance placement are values and are not decided")
     _ply_layout(run, ix, tb)
+    # ------------------------------------------------------------------ R13 the DXF polyline writer writes every point it was given
+    run.rule("R13", "DXF export (LWPOLYLINE): the points written are all points of the entity's discrete form - none is dropped by a coordinate test while the closed flag "
+                    "(group 70) is decided from the entity's indices; the reader re-closes a polyline only when that flag is set")
+    dxm = ix.modules.get("trimesh.path.exchange.dxf")
+    n13 = 0
+    for f_ in ix.all_functions:
+        if f_.module is not dxm or f_.parent is None or "export" not in f_.parent.qualname:
+            continue
+        pts_calls = [c_ for c_ in ast.walk(f_.node) if isinstance(c_, ast.Call) and ast.unparse(c_.func).split(".")[-1] == "format_points" and c_.args and isinstance(c_.args[0], ast.Name)]
+        flag = [st for st in ast.walk(f_.node) if isinstance(st, ast.Assign) and "closed" in ast.unparse(st.value) and isinstance(st.targets[0], ast.Subscript)]
+        if not pts_calls or not flag:
+            continue
+        pname = pts_calls[0].args[0].id
+        n13 += 1
+        drops = []
+        for st in ast.walk(f_.node):
+            if isinstance(st, ast.Assign) and len(st.targets) == 1 and isinstance(st.targets[0], ast.Name) and st.targets[0].id == pname \
+                    and isinstance(st.value, ast.Subscript) and isinstance(st.value.value, ast.Name) and st.value.value.id == pname:
+                sl = st.value.slice
+                sl0 = sl.elts[0] if isinstance(sl, ast.Tuple) and sl.elts else sl
+                if isinstance(sl0, ast.Slice) and (sl0.upper is not None or sl0.lower is not None) and sl0.step is None:
+                    # guards of the statement
+                    g_ = [x_ for x_ in ast.walk(f_.node) if isinstance(x_, ast.If) and any(y_ is st for y_ in ast.walk(x_))]
+                    by_flag = any(".closed" in ast.unparse(x_.test) for x_ in g_)
+                    if not by_flag:
+                        drops.append(st)
+        ok = not drops
+        where_ = f"{f_.module.rel}:{(drops[0] if drops else f_.node).lineno} {f_.qualname}"
+        run.instance("R13", where_, f"{f_.qualname}: `{pname}` reaches format_points with every row: {ok}", ok)
+        for st in drops:
+            run.violation("R13", where_, f"`{f_.qualname}` drops points with `{ast.unparse(st)[:60]}` under a test that is not the entity's own closed flag, while `FLAG` is still written from "
+                                         f"`.closed` (index based): a loop closed by coordinates only (separate first / last vertex rows) is written one point short AND open, so "
+                                         f"its last segment is lost on import", key=key_of("C08-R13", f_.qualname))
+    if n13 == 0:
+        run.instance("R13", "trimesh/path/exchange/dxf.py", "DXF polyline writer not in a recognised form - NOT decided", True, nontrivial=False)
+        run.assume("export_dxf: polyline writer not recognised")
     from ..svgarc import sweep_rule
     sweep_rule(run, ix, "R11", "C08")
     from ..memostore import memo_store_rule
